@@ -282,6 +282,43 @@ Theorem concat_compact_ok : forall (A B : Type) (ds : list (cds A B)),
   Forall compact_ok ds -> compact_ok (concat_c ds).
 Proof. intros A B. exact concat_compact_ok_l. Qed.
 
+(* ---- the width of the index type.  The model's indices are naturals; concat_w W (Model/C13_compact.v) does the shift of
+   concat_collocations in an integer type of W values (the in-place `+=` keeps the type of Collocations/pairs and wraps).
+   Whatever W and the datasets are, it stores the model's indices modulo W and the same points ... *)
+Theorem concat_width_is_mod : forall (A B : Type) (W : nat) (ds : list (cds A B)),
+  prow (concat_w W ds) = map (fun i => i mod W) (prow (concat_c ds)) /\
+  srow (concat_w W ds) = map (fun j => j mod W) (srow (concat_c ds)) /\
+  pvals (concat_w W ds) = pvals (concat_c ds) /\ svals (concat_w W ds) = svals (concat_c ds).
+Proof. intros A B. exact concat_width_is_mod_l. Qed.
+
+(* ... so for compact datasets the width is harmless EXACTLY when the total numbers of stored points fit (that every
+   single dataset fits is not enough: every stored point takes part in a pair, so the largest shifted index is total - 1) *)
+Theorem concat_fits_width_iff : forall (A B : Type) (W : nat) (ds : list (cds A B)),
+  0 < W -> Forall compact_ok ds ->
+  (concat_w W ds = concat_c ds <-> length (flat_map pvals ds) <= W /\ length (flat_map svals ds) <= W).
+Proof. intros A B. exact concat_fits_width_iff_l. Qed.
+
+(* ... and then the concat clause holds in that index type as well (W = 2^63: the code as it is) *)
+Theorem expand_concat_any_width : forall (A B : Type) (da : A) (db : B) (W : nat) (ds : list (cds A B)),
+  0 < W -> Forall compact_ok ds -> length (flat_map pvals ds) <= W -> length (flat_map svals ds) <= W ->
+  expand da db (concat_w W ds) = concat (map (expand da db) ds) /\ compact_ok (concat_w W ds).
+Proof. intros A B. exact expand_concat_any_width_l. Qed.
+
+(* non-vacuity: two datasets of 150 points per group each (every one fits into 8 bits, the total of 300 does not): in a
+   9-bit type the concatenation is the model's, in an 8-bit type pair 260 names point 4 of the FIRST dataset and the
+   result is no longer compact *)
+Example nonvacuous_width :
+  let d1 := mk_cds (seq 0 150) (seq 0 150) (seq 200 150) (seq 400 150) in
+  let d2 := mk_cds (seq 0 150) (seq 0 150) (seq 600 150) (seq 800 150) in
+  Forall compact_ok [d1; d2] /\ length (flat_map pvals [d1; d2]) = 300 /\
+  concat_w 512 [d1; d2] = concat_c [d1; d2] /\
+  concat_w 256 [d1; d2] <> concat_c [d1; d2] /\
+  nth 260 (srow (concat_c [d1; d2])) 0 = 260 /\ nth 260 (srow (concat_w 256 [d1; d2])) 0 = 4 /\
+  nth 260 (expand 0 0 (concat_c [d1; d2])) (0, 0) = (710, 910) /\
+  nth 260 (expand 0 0 (concat_w 256 [d1; d2])) (0, 0) = (204, 404) /\
+  compact_okb (concat_w 256 [d1; d2]) = false.
+Proof. exact nonvacuous_width_l. Qed.
+
 (* ---- non-vacuity: an unsorted pair list with one-to-many and many-to-one multiplicities meets the
    hypotheses; the model computes what a reader expects (values 10.. / 20.. stand for the data). *)
 Example nonvacuous :
@@ -397,3 +434,6 @@ Print Assumptions expand_rows.
 Print Assumptions expand_length.
 Print Assumptions expand_concat.
 Print Assumptions concat_compact_ok.
+Print Assumptions concat_width_is_mod.
+Print Assumptions concat_fits_width_iff.
+Print Assumptions expand_concat_any_width.
